@@ -240,7 +240,8 @@ def gen_calls(rng, count):
     for _ in range(count):
         kind = rng.choice(['getrandbits', 'getrandbits_bits', 'randbelow', 'randrange1', 'randrange3', 'randint',
                            'choice', 'choice_sec', 'choices', 'choices_w', 'choices_cw', 'shuffle', 'perm_int',
-                           'perm_list', 'derange', 'sample_list', 'sample_range', 'random', 'uniform', 'ruv'])
+                           'perm_list', 'derange', 'sample_list', 'sample_range', 'random', 'uniform', 'ruv',
+                           'choices_w_fxp', 'choice_fxp', 'shuffle_fxp'])
         if kind in ('getrandbits', 'getrandbits_bits'):
             calls.append((kind, rng.choice([0, 1, 2, 3, 5, 8, 13])))
         elif kind == 'randbelow':
@@ -276,11 +277,17 @@ def gen_calls(rng, count):
                 w[rng.randrange(n)] = g
             if w[-1] == 0 and rng.random() < 0.5:
                 w[-1] = g
-            if sum(1 for a in w if a) < 2:      # a single positive weight raises AttributeError (finding, part D)
-                if n == 1:
-                    continue
-                w[0], w[1] = g, 2 * g
             calls.append((kind, [rng.randrange(-9, 10) for _ in range(n)], w, rng.choice([1, 2, 3])))
+        elif kind == 'choices_w_fxp':
+            n = rng.choice([1, 2, 3, 4])
+            w = [rng.choice([0, 1, 2, 3]) for _ in range(n)]
+            if not any(w):
+                w[rng.randrange(n)] = 2
+            calls.append((kind, [rng.randrange(-9 * 2 ** FIX_F, 10 * 2 ** FIX_F) / 2 ** FIX_F for _ in range(n)], w,
+                          rng.choice([1, 2])))
+        elif kind in ('choice_fxp', 'shuffle_fxp'):
+            n = rng.choice([1, 2, 3, 5, 6])
+            calls.append((kind, [k + rng.randrange(2 ** FIX_F) / 2 ** FIX_F for k in rng.sample(range(-9, 10), n)]))
         elif kind in ('shuffle', 'perm_list'):
             n = rng.choice([1, 2, 3, 4, 5, 6, 8, 9])
             calls.append((kind, rng.sample(range(-20, 20), n)))
@@ -297,8 +304,7 @@ def gen_calls(rng, count):
             start = rng.randrange(-10, 10)
             step = rng.choice([1, 1, 2, 3, -1, -2])
             n = rng.choice([1, 2, 3, 5, 6, 8])
-            # a one-element range with k = 1 crashes (finding sample-range-singleton, part D)
-            calls.append((kind, start, start + step * n, step, rng.randrange(0, n + 1) if n > 1 else 0))
+            calls.append((kind, start, start + step * n, step, rng.randrange(0, n + 1)))
         elif kind == 'random':
             calls.append((kind,))
         elif kind == 'uniform':
@@ -336,6 +342,14 @@ def do_call(mpc, secint, secfxp, call):
         return mr.choices(secint, call[1], call[2], k=call[3])
     if kind == 'choices_cw':
         return mr.choices(secint, call[1], cum_weights=list(itertools.accumulate(call[2])), k=call[3])
+    if kind == 'choices_w_fxp':
+        return mr.choices(secfxp, call[1], call[2], k=call[3])
+    if kind == 'choice_fxp':
+        return mr.choice(secfxp, call[1])
+    if kind == 'shuffle_fxp':
+        x = [secfxp(a) for a in call[1]]
+        mr.shuffle(secfxp, x)
+        return x
     if kind == 'shuffle':
         x = list(call[1])
         mr.shuffle(secint, x)
@@ -380,6 +394,12 @@ def call_model_line(call, stream):
         return f'choicesu {il(call[1])} {call[2]} {b}'
     if kind in ('choices_w', 'choices_cw'):
         return f'choicesw {il(call[1])} {il(itertools.accumulate(call[2]))} {call[3]} {b}'
+    if kind == 'choices_w_fxp':
+        return f'choicesw {il(_sc(call[1]))} {il(itertools.accumulate(call[2]))} {call[3]} {b}'
+    if kind == 'choice_fxp':
+        return f'choice {il(_sc(call[1]))} {b}'
+    if kind == 'shuffle_fxp':
+        return f'shuffle {il(_sc(call[1]))} {b}'
     if kind in ('shuffle', 'perm_list'):
         return f'shuffle {il(call[1])} {b}'
     if kind == 'perm_int':
@@ -400,10 +420,17 @@ def call_model_line(call, stream):
     return None
 
 
+def _sc(xs):
+    """scaled integers of fixed-point values (exact for the dyadic values used)"""
+    return [round(a * 2 ** FIX_F) for a in xs]
+
+
 def value_str(call, val):
     kind = call[0]
-    if kind in ('random', 'uniform'):
+    if kind in ('random', 'uniform', 'choice_fxp'):
         return str(round(val * 2 ** FIX_F))
+    if kind in ('choices_w_fxp', 'shuffle_fxp'):
+        return ints_str(_sc(val))
     if kind == 'getrandbits_bits':
         return bits_str(val)
     if isinstance(val, list):
@@ -429,8 +456,14 @@ def shape_error(call, val):
             return None if val in range(call[1], call[2], call[3]) else f'not in range{call[1:]}'
         if kind == 'randint':
             return None if call[1] <= val <= call[2] and val == int(val) else f'not in [{call[1]}, {call[2]}]'
-        if kind in ('choice', 'choice_sec'):
+        if kind in ('choice', 'choice_sec', 'choice_fxp'):
             return None if val in call[1] else 'not an element of seq'
+        if kind == 'choices_w_fxp':
+            allowed = {a for a, w in zip(call[1], call[2]) if w}
+            return None if len(val) == call[3] and all(v in allowed for v in val) else \
+                'not k population elements of positive weight'
+        if kind == 'shuffle_fxp':
+            return None if sorted(val) == sorted(call[1]) else 'not a permutation'
         if kind == 'choices':
             return None if len(val) == call[2] and all(v in call[1] for v in val) else 'not k population elements'
         if kind in ('choices_w', 'choices_cw'):
@@ -809,7 +842,7 @@ def part_d(ctx, lines, impl):
     ctx.case(('D', 'sample-range-singleton'))
     if got != [7]:
         ctx.violation(f'sample(secint, range(7, 8), 1): expected [7], got {got}',
-                      {'kind': 'sample-range-singleton', 'finding_key': 'sample-range-singleton',
+                      {'kind': 'sample-range-singleton',
                        'expected': [7], 'observed': got})
     expect = {'randrange-empty': 'ValueError', 'randrange-empty-step': 'ValueError', 'randrange-step0': 'ValueError',
               'randint-empty': 'ValueError', 'choice-empty': 'IndexError', 'choices-len': 'ValueError',
@@ -829,7 +862,7 @@ def part_d(ctx, lines, impl):
         impl.append(f'ok {ints_str(res[k])} o=- c=0' if isinstance(res[k], list) else f'error:{res[k]}')
         if res[k] != e:
             ctx.violation(f'{k}: choices with a single positive weight: expected {e} (like random.choices), got {res[k]}',
-                          {'kind': 'choices-one-weight', 'finding_key': 'choices-single-positive-weight', 'case': k,
+                          {'kind': 'choices-one-weight', 'case': k,
                            'expected': e, 'observed': res[k]})
     bad = [v for v in res['uniform-degenerate'] if v != 1.5]
     for j in range(16):
@@ -839,7 +872,7 @@ def part_d(ctx, lines, impl):
         ctx.case(('D', 'uniform', j))
     if bad:
         ctx.violation(f'uniform(secfxp, 1.5, 1.5) returned {bad[0]} (documented: a <= N <= b)',
-                      {'kind': 'uniform-degenerate', 'finding_key': 'uniform-degenerate-interval', 'a': 1.5, 'b': 1.5,
+                      {'kind': 'uniform-degenerate', 'a': 1.5, 'b': 1.5,
                        'seed': ctx.seed, 'expected': 1.5, 'observed': res['uniform-degenerate']})
 
 
